@@ -9,6 +9,9 @@
 // Dropped from the real types: Lexer.entire_span, Lexer.is_expanded (span
 // bookkeeping, no influence on cursor movement), Token.pos is kept.
 
+// the crate is only built for 64-bit targets here; fixes `usize::MAX` for the overflow obligations
+global size_of usize == 8;
+
 #[derive(Copy, Clone, Debug)]
 pub struct Span { pub lo: u64, pub hi: u64 }
 
